@@ -132,7 +132,9 @@ type Shape struct {
 	Own   int    `json:"own"`
 	NR    int    `json:"noroute"`  // handlers given to NoRoute
 	NM    int    `json:"nomethod"` // handlers given to NoMethod
-	NWhen int    `json:"nwhen"`    // 0: NoRoute/NoMethod never called, 1: called first, 2: called last
+	NWhen int    `json:"nwhen"`    // 0: NoRoute/NoMethod never called, 1: called first, 2: called last, 3: called after route R1 (between Use calls)
+	// AnyR2: route R2 is registered through Any("/s", ...) instead of POST
+	AnyR2 bool `json:"any_r2,omitempty"`
 }
 
 const (
@@ -196,7 +198,7 @@ type Case struct {
 }
 
 func (s Shape) valid() bool {
-	if s.Depth < 0 || s.Depth > 3 || s.Own < 1 || s.Own > 12 || s.NWhen < 0 || s.NWhen > 2 || s.NR < 0 || s.NM < 0 || s.NR > 12 || s.NM > 12 {
+	if s.Depth < 0 || s.Depth > 3 || s.Own < 1 || s.Own > 12 || s.NWhen < 0 || s.NWhen > 3 || s.NR < 0 || s.NM < 0 || s.NR > 12 || s.NM > 12 {
 		return false
 	}
 	tot := s.Own + s.NR + s.NM + 1
@@ -454,12 +456,19 @@ func build(sh Shape) *rig {
 		}
 	}
 	groups[sh.Depth].GET("/r", r.hs(sh.Own, sOwn1, sh.Depth, &r.d.own1)...)
+	if sh.NWhen == 3 {
+		setN()
+	}
 	for k := 0; k <= sh.Depth; k++ {
 		for i := 0; i < sh.Post[k]; i++ {
 			use(k, sPost, &r.d.post[k])
 		}
 	}
-	groups[sh.Depth].POST("/s", r.hs(1, sOwn2, sh.Depth, &r.d.own2)...)
+	if sh.AnyR2 {
+		groups[sh.Depth].Any("/s", r.hs(1, sOwn2, sh.Depth, &r.d.own2)...)
+	} else {
+		groups[sh.Depth].POST("/s", r.hs(1, sOwn2, sh.Depth, &r.d.own2)...)
+	}
 	if sh.NWhen == 2 {
 		setN()
 	}
@@ -1067,7 +1076,7 @@ func jobsA(N int) (jobs []*job, chains int64) {
 		}
 		// unmatched / wrong method: s x engine.Use, n-s NoRoute resp. NoMethod handlers, set first or last
 		for s := 0; s <= n; s++ {
-			for when := 1; when <= 2; when++ {
+			for when := 1; when <= 3; when++ {
 				sh := Shape{Own: 1, NR: n - s, NWhen: when}
 				sh.Pre[0] = s
 				add(sh, k404, n)
@@ -1131,13 +1140,15 @@ func jobsB(lfull, maxPreGroup int) (jobs []*job) {
 						}
 						sh.Post[0], sh.Post[d] = p0, pd
 						for own := 1; own <= 2; own++ {
-							for when := 0; when <= 2; when++ {
-								s := sh
-								s.Own, s.NWhen = own, when
-								if when != 0 {
-									s.NR, s.NM = 1, 1
+							for when := 0; when <= 3; when++ {
+								for _, anyR2 := range []bool{false, true} {
+									s := sh
+									s.Own, s.NWhen, s.AnyR2 = own, when, anyR2
+									if when != 0 {
+										s.NR, s.NM = 1, 1
+									}
+									jobs = append(jobs, &job{sh: s, kinds: allKinds, lfull: lfull})
 								}
-								jobs = append(jobs, &job{sh: s, kinds: allKinds, lfull: lfull})
 							}
 						}
 					}
